@@ -52,6 +52,10 @@ def alphabet():
         A.append(call(fn, "delimiter $$\nselect f(null) $$\nselect sum(a), g(null, 1) from t $$\nselect h(2) $$\n", calls="normal_op", null={"D": {"$i": "4"}}))
         A.append(call(fn, "select k(1);\ndelimiter //\nselect sum(b) from u //\nselect f(null), sum(c) from v //\ndelimiter ;\nselect g(null)", calls="custom"))
     A.append(call("parse", "delimiter //\nselect sum(a) from t //\nselect sum(b), f(null) from u //\nselect sum(c) from w //\n", fmap={"sum": "total", "f": "g"}))
+    # deeply bracketed input, accepted and rejected (a call that raises half-way must leave nothing behind)
+    for fn in FNS[:2]:
+        A.append(call(fn, "select " + "(" * 40 + "a" + ")" * 39))
+        A.append(call(fn, "select " + "(" * 30 + "a + 1" + ")" * 30 + " from t where x in (" * 6 + "select 1" + ")" * 5))
     A.append(call("parse", "select -inf"))
     A.append(call("parse", "select a from t", fmap={"select": "pick"}, calls="normal_op", null={"$i": "7"}))
     A.append({"fn": "format", "tree": {"select": {"value": {"add": ["a", {"$i": "1"}]}}, "from": "order"}})
@@ -92,6 +96,7 @@ def probes():
     P.append(("format", {"fn": "format", "tree": {"select": {"value": {"mul": [{"add": ["a", "b"]}, "c"]}}, "from": "select"}}))
     P.append(("script:parse", call("parse", "select 1; select f(null)")))
     P.append(("format-names", {"fn": "format", "tree": QTREE}))
+    P.append(("process-settings", {"fn": "env"}))
     P.append(("format-names-backtick", {"fn": "format", "tree": QTREE, "kw": {"ansi_quotes": False}}))
     return P
 
